@@ -815,7 +815,7 @@ class AdvancedHTMLParser(HTMLParser):
                     if key == 'text':
                         thisFunc = _makeTextContainsInLambda(value, icontains=endsIContains)
                     else:
-                        thisFunc = _makeAttributeContainsLambda(key, value, icontains=endsIContains)
+                        thisFunc = _makeAttributeContainsInLambda(key, value, icontains=endsIContains)
                 else:
                     if key == 'text':
                         thisFunc = _makeTextContainsLambda(value, icontains=endsIContains)
